@@ -84,6 +84,11 @@ def rules_case(draw):
         elif where == 'field':
             r['fields'] = [f for f in r['fields'] if f[0] != 'wf'] + [['wf', w]]
         elif where == 'tag':
+            if draw(st.integers(0, 2)) == 0:
+                # tag expressions are not validated when the file is loaded: text the parser rejects (syntax outside the language, or no Python at all)
+                # is accepted in a tag and must simply make that tag inapplicable
+                w = ['raw', draw(st.sampled_from(['description[0:4]', '2 ** 3', '7 // 2', 'amount is None', 'lambda: 1', 'description[::-1]', 'amount >', '-', 'not', 'a b',
+                                                  'amount @ 2', '~1', '1 if']))]
             if tag_safe(w):
                 r['tags'] = list(r['tags']) + [['dyn', w]]
         elif where == 'var':
